@@ -201,9 +201,15 @@ RunRead(log, now, c) ==
                                                   !.claim = g.items[c.id].claim, !.epic = g.items[c.id].epic])
        ELSE Res(0, log, now, [Reply0 EXCEPT !.kind = "list", !.ids = SetToSeq(ListedBy(g, c))])
 
+\* JSON on stdin must be ONE value: anything but white space after it is refused
+\* (c.trail, when present, says what follows the document)
+TrailForms == {"ws", "brace", "bracket", "value", "garbage", "brace_value"}
+StdinOK(c) == "trail" \notin DOMAIN c \/ c.trail = "ws"
+
 \* deterministic commands
 Run(log, now, c) ==
-  CASE c.name = "new_task"    -> RunNewTask(log, now, c)
+  CASE ~StdinOK(c)            -> Rejected(log, now)
+    [] c.name = "new_task"    -> RunNewTask(log, now, c)
     [] c.name = "new_epic"    -> RunNewEpic(log, now, c)
     [] c.name = "set"         -> RunSet(log, now, c)
     [] c.name = "claim_id"    -> RunClaimId(log, now, c)
